@@ -24,7 +24,7 @@ I0 == [present |-> FALSE, cfg |-> NoCfg,
        np |-> 0, nd |-> 0, ndRise |-> 0, term |-> 0, ctxOpen |-> {}, termLive |-> FALSE,
        lastTo |-> "INIT",
        lostAt |-> -1, lostCause |-> "", lostOutside |-> FALSE, lostHb |-> 0,
-       failRun |-> 0, okStart |-> -1, hskip |-> FALSE,
+       failRun |-> 0, failT |-> -1, okStart |-> -1, hskip |-> FALSE,
        consecU |-> 0, hdue |-> FALSE,
        lastDisc |-> -1, graceDue |-> -1, verify |-> "none", verifyOwn |-> TRUE,
        vc |-> {}, st |-> NoStop, halted |-> FALSE,
@@ -102,6 +102,7 @@ TickInst(o, i, e) ==
                      !.reconnAt = IF rv \/ ~x.claim THEN -1 ELSE @,
                      !.st.late = @ \/ sl,
                      !.failRun = @ + Cardinality(tmo),
+                     !.failT = IF tmo # {} THEN t ELSE @,
                      !.burst = IF t # x.burstT THEN 0 ELSE @,
                      !.burstT = t]
   IN R(y, v)
@@ -315,7 +316,7 @@ H_op_resp(o, e) ==
             ELSE IF isRefresh /\ e.ok /\ timely /\ x.claim
                  THEN [x EXCEPT !.trev = e.rev, !.okStart = q.at, !.failRun = 0, !.hskip = FALSE]
             ELSE IF isRefresh /\ e.ok /\ ~timely THEN [x EXCEPT !.revOK = FALSE]
-            ELSE IF isRefresh /\ ~e.ok /\ timely /\ x.claim THEN [x EXCEPT !.failRun = @ + 1]
+            ELSE IF isRefresh /\ ~e.ok /\ timely /\ x.claim THEN [x EXCEPT !.failRun = @ + 1, !.failT = e.t]
             ELSE x
       \* ready: the instance has been through the set-up of its watch loop. A Watch call that fails is a transient store
       \* failure like any other (C06: "after transient store or watch failures cease the same bound applies again"): the
@@ -549,7 +550,9 @@ H_snap(o, e) ==
                      /\ (y.claim \/ (y.cfg.cb /\ e.nd <= y.ndRise))
              THEN {V("C03", "not_demoted_at_completion_of_next_heartbeat:" \o y.lostCause \o Ctx(o1), i, e)} \cup
                   (IF y.lostOutside THEN {V("C13", "tampered_leader_not_demoted_at_completion_of_next_heartbeat:" \o y.lostCause, i, e)} ELSE {}) ELSE {}
-      v03b == IF quiet /\ y.claim /\ y.failRun >= ToleratedFailures
+      \* (the failure that completed the count lies strictly before this quiescent point: at the very instant of a local
+      \*  time-out the library's own timer may not have run yet)
+      v03b == IF quiet /\ y.claim /\ y.failRun >= ToleratedFailures /\ e.t > y.failT
               THEN {V("C03", "not_demoted_after_third_failed_refresh", i, e)} ELSE {}
       \* (the verification is over: none of its reads is still outstanding)
       vpend == \E q \in o1.pend : q.i = i /\ q.vfy
